@@ -4,8 +4,9 @@ the Runner model on the projection proj_C01; the property oracle (harness/oracle
 import runner_common as rc
 
 LEVEL = "proof"
-# every way of reaching the retry loop without a breaker: the caps are configuration, whoever builds the policy
-OPTS = {"p_cap_mix": 0.35, "entries": ["retry", "retry", "retry.ctx", "retrypolicy", "retrypolicy.ctx", "decorator"]}
+# every way of reaching the retry loop without a breaker: the caps are configuration, whoever builds the policy (constructor,
+# RetryPolicy, decorator, RetryConfig + from_config)
+OPTS = {"p_cap_mix": 0.35, "entries": ["retry", "retry", "retry.ctx", "retrypolicy", "retrypolicy.ctx", "decorator", "retrycfg", "retrypolicycfg"]}
 
 
 def run(chk):
@@ -17,8 +18,7 @@ def run(chk):
     rc.run_runner_check(chk, "C01", "proj_C01", OPTS, theorems_ok=ok)
     if ok:
         import source_tie
-        source_tie.report(chk, source_tie.failure_tie(chk), "failure",
-                          "scripted call sequences (random, cap-mix, abort sentinels and sweeps): no property violation found")
+        source_tie.runner_ties(chk)
 
 
 def replay(path):
